@@ -440,7 +440,24 @@ def gen_handlers():
     return "\n".join(L) + "\n"
 
 
-GENERATORS = {"Consts.v": gen_consts, "StopTests.v": gen_stoptests, "Handlers.v": gen_handlers}
+def gen_bench():
+    """benchmarks.py -> real-valued Gallina functions (harness/translate_bench.py, fail-closed), then the translator's
+    own reading of NumPy is validated against the real functions on random points."""
+    from harness import translate_bench as tb
+
+    src = os.path.join(PKG, "benchmarks.py")
+    try:
+        funs, sha = tb.translate_module(src)
+        text = tb.render(funs, sha, src)
+    except tb.Unsupported as e:
+        raise TranslateError(str(e))
+    errs = tb.validate(src)
+    if errs:
+        raise TranslateError("translator validation against the real functions failed: " + "; ".join(errs[:3]))
+    return text + "\n"
+
+
+GENERATORS = {"Consts.v": gen_consts, "StopTests.v": gen_stoptests, "Handlers.v": gen_handlers, "Bench.v": gen_bench}
 
 
 def generate():
